@@ -21,7 +21,7 @@ RULE = ("(a) every stock dynamic case with its own events disabled; (b) composed
         "the stock cases), some generators are shared by two machines with split factors summing to one, some devices offline, "
         "measurement devices and ZIP/FLoad loads added; (c) the same made inconsistent (split factors not summing to one, perturbed "
         "power-flow solution, NaN parameter). Non-trivial: >= 4 dynamic devices initialised; distinct = case | composition seed.")
-ASSUMPTIONS = ["in scope for the 'succeeds' clause: power flow converged, every island has exactly one slack, no in-service machine on an out-of-service static generator, no limiter flag active at initialisation for an online device, no "
+ASSUMPTIONS = ["in scope for the 'succeeds' clause: power flow converged, IEEEG1 fractions as its documentation requires, every island has exactly one slack, no in-service machine on an out-of-service static generator, no limiter flag active at initialisation for an online device, no "
                "time-driven inputs (PLBVFU1, TimeSeries); everything else is reported as out of scope, not as held",
                "rows to which models with hand-written numeric equations contribute are excluded from the independent residual",
                "drift bound of the undisturbed run: 50 * TDS.tol"]
@@ -135,6 +135,14 @@ def check_init(res, ss, tag, expect=None, run_after=True):
     for G in (ss.PV, ss.Slack):
         for k in range(G.n):
             pq_static[str(G.idx.v[k])] = (float(G.p.v[k]), float(G.q.v[k]))
+    # IEEEG1 documents: without a second machine K1 + K3 + K5 + K7 = 1 and K2 + K4 + K6 + K8 = 0 (ei/EI_33.xlsx ships a
+    # device with K6 = 0.42 and no second machine: its own data are inconsistent)
+    G = getattr(ss, "IEEEG1", None)
+    if G is not None and G.n:
+        for k in range(G.n):
+            if G.u.v[k] != 0 and G.syn2.v[k] is None and abs(sum(float(G.params[p_].v[k]) for p_ in ("K2", "K4", "K6", "K8"))) > 1e-12:
+                inconsistent = True
+                res.count("inconsistent_ieeeg1_lp_fractions_without_second_machine")
     ss.TDS.config.no_tqdm = 1
     try:
         ss.TDS.init()
@@ -398,7 +406,16 @@ def compose(rng, base, negative=None):
                 gk = gov_models[int(rng.integers(0, len(gov_models)))]
                 gr = dict(lib[gk][int(rng.integers(0, len(lib[gk])))])
                 gr.update(syn=sidx, u=1)
-                gr.pop("syn2", None)          # a harvested row may name a second machine of its own case
+                if gr.pop("syn2", None) is not None or gk[1] == "IEEEG1":
+                    # a harvested row may name a second machine of its own case: without it the low-pressure fractions
+                    # have to be zero and the high-pressure ones sum to one (IEEEG1 documentation)
+                    if gk[1] == "IEEEG1":
+                        hp = sum(float(gr.get(k_, 0) or 0) for k_ in ("K1", "K3", "K5", "K7"))
+                        for k_ in ("K2", "K4", "K6", "K8"):
+                            gr[k_] = 0.0
+                        if hp > 0:
+                            for k_ in ("K1", "K3", "K5", "K7"):
+                                gr[k_] = float(gr.get(k_, 0) or 0) / hp
                 ss.add(gk[1], gr)
                 count += 1
                 stack.append(gk[1])
@@ -497,8 +514,8 @@ def run_negative(spec, res):
             from andes.core.param import NumParam
             cands = []
             for mn, md in ss.exist.tds.items():
-                if md.n == 0 or md.flags.f_num or md.flags.g_num:
-                    continue
+                if md.n == 0 or md.flags.f_num or md.flags.g_num or md.flags.pflow:
+                    continue          # (models that also take part in the power flow would spoil that instead)
                 estr = " ".join(str(v.e_str) for v in md.cache.all_vars.values() if v.e_str is not None)
                 for pn, par in md.params.items():
                     if isinstance(par, NumParam) and pn not in ("u",) and re.search(r"(?<![A-Za-z0-9_])%s(?![A-Za-z0-9_])" % re.escape(pn), estr):
